@@ -2,9 +2,11 @@ mod alloc;
 mod env;
 mod gen;
 mod json;
+mod l2a;
 mod ops;
 mod rng;
 mod runner;
+mod sched;
 mod sim;
 mod voicegen;
 mod w2;
@@ -94,13 +96,15 @@ pub fn seed_from(args: &Args) -> u64 {
 
 fn main() {
     env::install_panic_hook();
-    jbonsai::verif::set_yield_hook(Some(env::l1_hook));
+    jbonsai::verif::set_yield_hook(Some(l2a::combined_hook));
     let args = Args::parse();
     let code = match args.pos.first().map(|s| s.as_str()) {
         Some("w1") => cmd_w1(&args),
         Some("replay") => cmd_replay(&args),
         Some("genvoice") => cmd_genvoice(&args),
         Some("run1") => cmd_run1(&args),
+        #[cfg(feature = "threads")]
+        Some("l2a") => l2a::cmd_l2a(&args),
         Some("w2") => w2run::cmd_w2(&args),
         Some("w2worker") => w2run::cmd_worker(&args),
         Some("w2exec") => w2run::cmd_exec_file(&args),
@@ -181,6 +185,8 @@ fn cmd_replay(args: &Args) -> i32 {
                 }
             }
         }
+        #[cfg(feature = "threads")]
+        ("W1", "L2a") => l2a::replay_l2a(&f),
         ("W2", _) => {
             let (sig, detail) = w2run::run_file_in_child(std::path::Path::new(path), 60);
             if sig == "harness" {
@@ -202,7 +208,7 @@ fn cmd_replay(args: &Args) -> i32 {
     }
 }
 
-fn replay_in_fresh_process(path: &std::path::Path) -> (i32, String) {
+pub fn replay_in_fresh_process(path: &std::path::Path) -> (i32, String) {
     let exe = std::env::current_exe().expect("current_exe");
     match std::process::Command::new(exe).arg("replay").arg(path).output() {
         Ok(o) => (o.status.code().unwrap_or(2), String::from_utf8_lossy(&o.stdout).to_string()),
@@ -221,7 +227,7 @@ fn cmd_w1(args: &Args) -> i32 {
     let default_runs = match (prop, thorough) {
         (Prop::C02, false) => 30_000,
         (Prop::C02, true) => 1_500_000,
-        (Prop::C03, false) => 6_000,
+        (Prop::C03, false) => 5_000,
         (Prop::C03, true) => 400_000,
         (Prop::C19, false) => 20_000,
         (Prop::C19, true) => 1_000_000,
